@@ -462,7 +462,7 @@ impl Prop for C10 {
                 }
             }
             for n in 0..=6usize {
-                for k in 0..tier.pick(150, 1500) {
+                for k in 0..tier.pick(150, 10_000) {
                     v.push(json!({"kind": "run", "ty": ty, "peers": n, "seed": mix(seed ^ (k as u64) << 4 ^ n as u64)}));
                     if n == 0 {
                         break;
